@@ -163,11 +163,14 @@ def gen_dir(tier, sd=None):
     return os.path.join(WORK, "gen", "%s-%s" % (tier, seed() if sd is None else sd))
 
 
+FUZZ_DEFS = 24
+
+
 def e3_generate(tier, exclude=(), sd=None):
     exe = cargo_build("e2_genstage")
     d = gen_dir(tier, sd)
     os.makedirs(d, exist_ok=True)
-    cmd = [exe, "gen", str(E3_DEFS[tier]), d]
+    cmd = [exe, "gen", str(FUZZ_DEFS if tier == "fuzz" else E3_DEFS[tier]), d]
     if exclude:
         cmd.append(",".join(str(k) for k in sorted(exclude)))
     rc, out = run(cmd, timeout=1200, extra_env=None if sd is None else {"VERIF_SEED": str(sd)})
@@ -335,7 +338,10 @@ def fuzz_part(target, prop_arg, runs, max_len=256):
         if runs.get(tier, 0) <= 0:
             return None
         fdir = os.path.join(ENGINE, "fuzz")
-        rc, out = run(["cargo", "+nightly", "fuzz", "build", target], cwd=fdir, timeout=3000)
+        build_env = {}
+        if target == "gendrive":
+            build_env = {"VERIF_GEN_DIR": e3_generate("fuzz")}
+        rc, out = run(["cargo", "+nightly", "fuzz", "build", target], cwd=fdir, timeout=3000, extra_env=build_env)
         if rc != 0:
             raise Inconclusive("cargo fuzz build failed:\n%s" % out[-3000:])
         base = os.path.join(WORK, "fz", "%s-%s-%s" % (target, prop_arg, os.getpid()))
@@ -350,12 +356,15 @@ def fuzz_part(target, prop_arg, runs, max_len=256):
                 fh.write(bytes(rng.randrange(256) for _ in range(rng.randrange(8, max_len))))
         cmd = ["cargo", "+nightly", "fuzz", "run", target, corpus, "--", "-runs=%d" % runs[tier], "-seed=%d" % (seed() % 2**31 or 1),
                "-max_len=%d" % max_len, "-len_control=0", "-print_final_stats=1", "-artifact_prefix=" + art + "/"]
-        rc, log = run(cmd, cwd=fdir, timeout=6 * 3600, extra_env={"VERIF_FUZZ_PROP": prop_arg})
+        run_env = {"VERIF_FUZZ_PROP": prop_arg}
+        run_env.update(build_env)
+        rc, log = run(cmd, cwd=fdir, timeout=6 * 3600, extra_env=run_env)
         stats = dict(re.findall(r"stat::(\w+):\s+(\d+)", log))
         cov = re.findall(r"cov: (\d+) ft: (\d+) corp: (\d+)", log)
         r = {
             "part": "fuzz:%s:%s" % (target, prop_arg), "property": prop_arg,
-            "replay_engine": "e1" if target == "layout" else "e4",
+            "replay_engine": {"layout": "e1", "vecconv": "e4"}.get(target, "e3-A"),
+            "replay_extra": {"gen_seed": seed(), "tier_defs": FUZZ_DEFS, "config": "A"} if target == "gendrive" else None,
             "evaluations": int(stats.get("number_of_executed_units", 0)),
             "nontrivial": 0, "distinct_nontrivial": 0, "distinct_nontrivial_random": 0,
             "rule": ("libFuzzer (cargo-fuzz, AddressSanitizer) over a total byte decoder of the same case grammar, oracle of %s inside the target, "
@@ -370,7 +379,8 @@ def fuzz_part(target, prop_arg, runs, max_len=256):
             m = re.search(r"FUZZ-FAILURE (\{.*\})", log)
             if m:
                 fj = json.loads(m.group(1))
-                r["failures"].append({"signature": fj.get("signature"), "message": fj.get("message"), "case": fj.get("case")})
+                r["failures"].append({"signature": fj.get("signature"), "message": fj.get("message"), "case": fj.get("case"),
+                                      "definition_index": fj.get("definition_index"), "definition_history": fj.get("definition_history")})
             elif "ERROR: AddressSanitizer" in log or "ERROR: libFuzzer: deadly signal" in log:
                 line = [l for l in log.splitlines() if "ERROR:" in l][:1]
                 arts = sorted(os.listdir(art))
@@ -409,12 +419,12 @@ PROPERTIES = {
     "C01": dict(level="exploration", parts=[e1_part("C01", dict(quick=100000, thorough=2000000))] + [fuzz_part("layout", "C01", dict(quick=0, thorough=250000), 256)]),
     "C02": dict(level="exploration", parts=[e1_part("C02", dict(quick=100000, thorough=2000000))] + e3_parts("C02", "B", dict(quick=20000, thorough=200000)) + [fuzz_part("layout", "C02", dict(quick=0, thorough=250000), 256)]),
     "C03": dict(level="exploration", parts=[e1_part("C03", dict(quick=100000, thorough=2000000))] + e3_parts("C03", "B", dict(quick=100000, thorough=1500000)) + [e5_part("C03", dict(quick=400, thorough=6000))] + [fuzz_part("layout", "C03", dict(quick=0, thorough=250000), 256)]),
-    "C04": dict(level="exploration", parts=e3_parts("C04", "AB", dict(quick=150000, thorough=2500000))),
-    "C05": dict(level="exploration", parts=e3_parts("C05", "AB", dict(quick=150000, thorough=2500000))),
-    "C06": dict(level="exploration", parts=e3_parts("C06", "AB", dict(quick=150000, thorough=2500000))),
-    "C07": dict(level="exploration", parts=e3_parts("C07", "AC", dict(quick=150000, thorough=2500000)) + [e3_miri_part("C07", dict(quick=30, thorough=400))]),
+    "C04": dict(level="exploration", parts=e3_parts("C04", "AB", dict(quick=150000, thorough=2500000)) + [fuzz_part("gendrive", "C04", dict(quick=0, thorough=150000), 160)]),
+    "C05": dict(level="exploration", parts=e3_parts("C05", "AB", dict(quick=150000, thorough=2500000)) + [fuzz_part("gendrive", "C05", dict(quick=0, thorough=150000), 160)]),
+    "C06": dict(level="exploration", parts=e3_parts("C06", "AB", dict(quick=150000, thorough=2500000)) + [fuzz_part("gendrive", "C06", dict(quick=0, thorough=200000), 160)]),
+    "C07": dict(level="exploration", parts=e3_parts("C07", "AC", dict(quick=150000, thorough=2500000)) + [e3_miri_part("C07", dict(quick=30, thorough=400))] + [fuzz_part("gendrive", "C07", dict(quick=0, thorough=300000), 160)]),
     "C15": dict(level="exploration", parts=e3_parts("C15", "AB", dict(quick=150000, thorough=2500000))),
-    "C16": dict(level="exploration", parts=e3_parts("C16", "AB", dict(quick=150000, thorough=2500000))),
+    "C16": dict(level="exploration", parts=e3_parts("C16", "AB", dict(quick=150000, thorough=2500000)) + [fuzz_part("gendrive", "C16", dict(quick=0, thorough=150000), 160)]),
     "C08": dict(level="exploration", parts=e4_parts("C08", dict(quick=60000, thorough=1500000), dict(quick=8, thorough=12)) + [fuzz_part("vecconv", "C08", dict(quick=0, thorough=600000), 128)]),
     "C09": dict(level="fault_enumeration", parts=e4_parts("C09", dict(quick=60000, thorough=1500000), dict(quick=8, thorough=11)) + [fuzz_part("vecconv", "C09", dict(quick=0, thorough=600000), 128)]),
     "C10": dict(level="exploration", parts=e4_parts("C10", dict(quick=40000, thorough=600000), dict(quick=12, thorough=40)) + [fuzz_part("vecconv", "C10", dict(quick=0, thorough=600000), 128)]),
@@ -512,7 +522,7 @@ def replay(prop, path):
             return 2
         if engine.startswith("e3-"):
             extra = data.get("replay_extra", {})
-            tier = "thorough" if extra.get("tier_defs") == E3_DEFS["thorough"] else "quick"
+            tier = "thorough" if extra.get("tier_defs") == E3_DEFS["thorough"] else ("fuzz" if extra.get("tier_defs") == FUZZ_DEFS else "quick")
             exe, d, excluded = e3_build(tier, engine[3:], sd=extra.get("gen_seed", data.get("seed", 1)))
             if data.get("signature") == "generated-interface-mismatch":
                 k = (data.get("case") or {}).get("definition_index")
